@@ -357,7 +357,20 @@ def harness_run(name, profile, lines, shards=None, timeout=3600, args=()):
     for i in range(shards):
         for j, _ in enumerate(chunks[i]):
             res[i + j * shards] = outs[i][j] if j < len(outs[i]) else "MISSING"
+    # answers that changed when the harness repeated a call on the same reader ("revisit": true in a read case)
+    for line, o in zip(lines, res):
+        if o and '"order_dep":[{' in o:
+            try:
+                oj, cj = json.loads(o), json.loads(line)
+                for sub in (oj, oj.get("frag") if isinstance(oj.get("frag"), dict) else None):
+                    if sub and sub.get("order_dep"):
+                        ORDER_DEP.append((profile, cj, sub["order_dep"]))
+            except Exception:
+                pass
     return res
+
+
+ORDER_DEP = []   # (profile, case json, [{"call", "first", "later"}])
 
 
 # ---------------------------------------------------------------- findings, evidence, verdict
@@ -490,6 +503,24 @@ def setup():
         regen()
         ok, log = coq_build(None, timeout=6000)
         if not ok:
+            # stale or half-written build products (a copy of the tree taken while a build was running): remove every product and build once more
+            print(log[-1500:])
+            print("setup: coq build failed, cleaning all build products and retrying once")
+            for root, _, files in os.walk(os.path.join(COQ, "theories")):
+                for fn in files:
+                    if fn.endswith((".vo", ".vos", ".vok", ".glob", ".aux")) or fn.startswith(".") and fn.endswith(".aux"):
+                        try:
+                            os.remove(os.path.join(root, fn))
+                        except OSError:
+                            pass
+            for fn in (".Makefile.coq.d", "Makefile.coq", "Makefile.coq.conf"):
+                try:
+                    os.remove(os.path.join(COQ, fn))
+                except OSError:
+                    pass
+            shutil.rmtree(os.path.join(VERIF, "ocaml", "extracted"), ignore_errors=True)
+            ok, log = coq_build(None, timeout=6000)
+        if not ok:
             print(log[-4000:])
             print("setup: coq build FAILED (checks will report it)")
         ok2, log2 = ocaml_build()
@@ -506,21 +537,20 @@ def setup():
 
 
 def order_dependent(rep):
-    """answers of sample_offset / read_sample that changed when the harness repeated the call on the same reader (readcheck.ORDER_DEP):
-    the first or the later answer is not the one the property prescribes for that file and sample id"""
-    import readcheck
+    """answers of sample_offset / read_sample that changed when the harness repeated the call on the same reader (ORDER_DEP, filled by
+    harness_run): the first or the later answer is not the one the property prescribes for that file and sample id"""
     seen = 0
-    for profile, case, deps in readcheck.ORDER_DEP:
+    for profile, case, deps in ORDER_DEP:
         if seen >= 3:
             break
         d = deps[0]
         rep.violation("order_dependent_%s_%d" % (profile, seen),
                       {"kind": "input", "what": "%s(track %s, sample %s) answered differently when asked again on the same reader" % (
                           {"off": "sample_offset", "rs": "read_sample"}.get(d["call"][0], d["call"][0]), d["call"][1], d["call"][2]),
-                       "first": d["first"], "later": d["later"], "profile": profile, "file": case["data"].hex(), "frag": case.get("frag", b"").hex(),
-                       "replay_with": "harness run: {cmd: read, file, [frag], revisit: true}"})
+                       "first": d["first"], "later": d["later"], "profile": profile, "case": case,
+                       "replay_with": "harness run <profile>: feed the case line (cmd read, revisit true)"})
         seen += 1
-    del readcheck.ORDER_DEP[:]
+    del ORDER_DEP[:]
 
 
 def run_check(prop, tier):
